@@ -100,6 +100,30 @@ def run(ctx):
                     bad = "sentinel after the reply failed (reply not consumed exactly): %r" % (outs[3:],)
             if bad:
                 viol.append({"op": op, "args": repr(args), "reply_hex": reply.hex(), "reply": reply.decode("latin-1"), "delivery": how, "what": bad + (" [reply delivered %s]" % how)})
+    # a reply that never completes — the connection goes silent or is closed at some byte: there is no status reply, so the
+    # operation must end with Error (not with a result, not hanging), whatever part of the reply had arrived
+    ntr = 0
+    for ci, (op, args, reply, exp) in enumerate(cases):
+        if op == "capability" or (ctx.tier == "quick" and ci % 3):
+            continue
+        marks = [i for i in range(len(reply)) if reply[i:i + 2] == b"\r\n"]
+        cuts = sorted(set([0, 1, len(reply) // 2, len(reply) - 1, len(reply) - 2] + [m for m in marks] + [m + 1 for m in marks] + [m + 2 for m in marks] + [m + 3 for m in marks]))
+        cuts = [k for k in cuts if 0 <= k < len(reply)]
+        if ctx.tier == "quick":
+            cuts = cuts[:: max(1, len(cuts) // 6)]
+        for k in cuts:
+            for eof in (False, True):
+                s_ = msref.Session()
+                stream = ms_cases.GREETING + ms_cases.AUTH_OK
+                o1 = s_.connect(stream, [], "user", "pw")
+                o2 = s_.op(op, *args, stream=reply[:k], sched=[], eof=eof)
+                lines += ["c op=new", msref.req_connect(stream, [], "user", "pw"), msref.req_op(op, *args, stream=reply[:k], sched=[])]
+                expect += ["ok", o1, o2]
+                evals += 1
+                ntr += 1
+                if "res=error" not in o2:
+                    viol.append({"op": op, "args": repr(args), "reply_hex": reply[:k].hex(), "reply": reply[:k].decode("latin-1"),
+                                 "what": "the reply stops after %d of %d bytes (%s): expected Error, got %s" % (k, len(reply), "connection closed" if eof else "silence", o2[:80])})
     # two failing (or succeeding) commands in a row on ONE client: the second reply alone decides errcode / errmsg
     pool = [c for c in cases if c[0] in ("havespace", "deletescript", "setactive", "putscript") and c[3]["status"] in ("NO", "OK")]
     for _ in range(120 if ctx.tier == "quick" else 1500):
